@@ -146,6 +146,13 @@ package rules
 // user/password may travel in a result struct. Mutants of those shapes (x1..x6, x8) are all caught; the
 // direct `ctx.Signature == ctx.computeSignature(req)` variant (x7) is silent.
 //
+// Robustness pass, fourth set (/verif/preserving/C06/r13..r16, all silent now): the presign indicator of
+// SigningContext is resolved by role (the bool or enum field set to a constant wherever ExpireTime is set)
+// and, for an enum, "presigned" is `field == that constant` (any other constant of the enumeration means not
+// presigned); a same-package helper that decodes inside (basicCredentials(hdr)) is a barrier for its
+// arguments while its results are followed. Mutants of those shapes (y1..y5) are caught, `location !=
+// inHeader` (y6) is silent.
+//
 // Not caught (outside the decided clauses, see NotDecided): N1 verify rebuilds the canonical headers from
 // empty values; N2 getCanonicalQuery keeps only the first value of every parameter (both are caught by the
 // signer's known-answer tests).
